@@ -221,6 +221,7 @@ func runJobs(w *lib.Writer, jobs []Job, outDir string) {
 	}
 	w.Meta.Extra["close_vs_send_race_reports_filtered"] = benignTotal
 	w.Meta.Extra["jobs_not_run_after_repeated_crashes"] = notRun
+	w.Meta.Extra["history_totals"] = totals
 }
 
 // ---------- Gallina printing ----------
@@ -393,6 +394,8 @@ func measure(log []Event) histStats {
 	return s
 }
 
+var totals = map[string]int{}
+
 func addCase(w *lib.Writer, j Job, r Result) {
 	id := w.NextID()
 	switch j.Kind {
@@ -410,6 +413,23 @@ func addCase(w *lib.Writer, j Job, r Result) {
 	case "hist":
 		c := lib.Case{Input: j, KF: j.KF, Class: "hist-" + j.Hist.Class}
 		st := measure(r.Log)
+		totals["events"] += len(r.Log)
+		totals["delivered"] += st.delivered
+		totals["closure_reports"] += st.closedReports
+		totals["refused"] += st.refused
+		totals["selects"] += st.selects
+		totals["select_default"] += st.defaults
+		totals["send_on_closed_or_close_of_closed"] += st.errors
+		if st.overlap {
+			totals["histories_with_overlapping_operations"]++
+		}
+		for _, c := range j.Hist.Caps {
+			if c == 0 {
+				totals["unbuffered_channels"]++
+			} else {
+				totals["buffered_channels"]++
+			}
+		}
 		c.Observed = map[string]any{"status": r.Status, "msg": trunc(r.Msg, 1500), "events": len(r.Log), "delivered": st.delivered,
 			"closure_reports": st.closedReports, "refused": st.refused, "select": st.selects, "default": st.defaults, "log": r.Log}
 		if r.Status == "ok" {
